@@ -14,8 +14,8 @@ def targeted(rng):
     """paragraphs aimed at the merge rule: equal-format runs separated by every kind of element; prefix-related formats; 3+ streaks"""
     g = docgen.Gen(rng, 'full'); docs = []
     # 105 / 106: same element (and same w:val) as 102 / 100, other attributes differ: still different formatting
-    EXTRA = ['<w:rFonts w:ascii="Times New Roman" w:hAnsi="Times New Roman"></w:rFonts>', '<w:color w:themeColor="accent1" w:val="FF0000"></w:color>']
-    fmts = [None, [[1, 1]], [[1, 1], [2, 1]], [[100, 0]], [[100, 0], [101, 0]], [], [[2, 1]], [[102, 0]], [[105, 0]], [[106, 0]]]
+    EXTRA = ['<w:rFonts w:ascii="Times New Roman" w:hAnsi="Times New Roman"></w:rFonts>', '<w:color w:themeColor="accent1" w:val="FF0000"></w:color>', '<w:noProof></w:noProof>']
+    fmts = [None, [[1, 1]], [[1, 1], [2, 1]], [[100, 0]], [[100, 0], [101, 0]], [], [[2, 1]], [[102, 0]], [[105, 0]], [[106, 0]], [[107, 0]], [[1, 1], [107, 0]]]
     seps = [None, ['other', 1], ['other', 2], ['other', 4], ['crs', '1'], 'ins', 'del', 'ref', 'special', 'empty']
     for f1 in fmts:
         for f2 in fmts:
@@ -30,7 +30,8 @@ def targeted(rng):
                 elif sep == 'empty': ns.append(['run', g.fresh(), f1, []])
                 else: ns.append(list(sep))
                 ns.append(['run', g.fresh(), f2, [['t', 'Delta'], ['tab'], ['t', 'tail']]])
-                ns.append(['run', g.fresh(), f2, [['br'], ['t', 'end']]])
+                ns.append(['run', g.fresh(), f2, [[rng.choice(['br', 'cr'])], ['t', 'end']]])
+                if rng.random() < .3: ns.append(['run', g.fresh(), f2, [['t', 'last'], ['cr']]])
                 g.pid += 1
                 p = {'t': 'p', 'pid': g.pid, 'ppr': 0, 'style': ['N', False], 'nodes': ns}
                 cs = [{'id': '1', 'author': 'Alice', 'date': '2024-01-01T10:00:00Z', 'text': 'note', 'parent': None}] if sep in (['crs', '1'], 'ref') or sep == 'ref' else []
